@@ -12,8 +12,8 @@ from . import audiofam as A
 
 M = A.M
 SIZES = {
-    "quick": dict(MaxLen=4, Depth=1, MaxIv=1, rand=4000, zcLen=5, zcRand=3000, splice=300),
-    "thorough": dict(MaxLen=6, Depth=2, MaxIv=2, rand=120000, zcLen=7, zcRand=100000, splice=8000),
+    "quick": dict(MaxLen=4, readMaxLen=4, Depth=1, MaxIv=1, rand=4000, zcLen=5, zcRand=3000, splice=300),
+    "thorough": dict(MaxLen=8, readMaxLen=5, Depth=1, MaxIv=2, rand=120000, zcLen=6, zcRand=100000, splice=8000),
 }
 PLANS = [(8, 1), (8, 2), (8, 4), (1000, 2), (44100, 2), (16000, 4), (8000, 1)]
 
@@ -22,7 +22,8 @@ def run_mc(mode, sz, work, res):
     nsl = min(common.NCPU, sz["MaxLen"] + 1)
     jobs = []
     for sl in range(nsl):
-        c = dict(Mode=mode, MaxLen=sz["MaxLen"], Depth=sz["Depth"] if mode == "edit" else 1, MaxIv=sz["MaxIv"], Emit=True,
+        c = dict(Mode=mode, MaxLen=sz["MaxLen"] if mode == "edit" else sz["readMaxLen"], Depth=sz["Depth"] if mode == "edit" else 1,
+                 MaxIv=sz["MaxIv"], Emit=True,
                  Slice=sl, NSlices=nsl)
         fn = os.path.join(work, "MC_Audio_%s_%d.cfg" % (mode, sl))
         common.write_cfg(fn, c, invariants=["NoFail", "EmitInv"], constraints=["Bound"])
